@@ -203,11 +203,12 @@ def run_case(ctx, case, rng):
 def summarize(agg):
   st = agg['stats']
   inc = []
-  if st.get('decisions_compared', 0) == 0:
-    inc.append('resolution trace never compared a decision (hook missing?)')
+  trace_on = st.get('decisions_compared', 0) > 0
+  if not trace_on and st.get('calibration_keys_checked', 0) == 0:
+    inc.append('neither the resolution trace nor the boundary oracle observed anything')
   for f in ('dotstar', 'substr', 'prefix', 'interior', 'exact_end', 'exact_both', 'with_sep', 'alt', 'caret'):
-    if st.get('form_compared:' + f, 0) == 0:
+    if trace_on and st.get('form_compared:' + f, 0) == 0:
       inc.append(f'regex form {f} never reached the comparison')
   if st.get('multi_signature_models', 0) == 0:
     inc.append('no multi-signature model was calibrated')
-  return {'inconclusive': inc}
+  return {'inconclusive': inc, 'coverage': {'resolution_trace_monitor': 'on' if trace_on else 'disabled (hooked attribute missing); verdict from the API-boundary oracles only'}}
